@@ -250,7 +250,7 @@ MANIFEST_TEXT = {
               "behaviours replayed on the code. A cross-family driver applies every structured operand shape to every binary operation. NumMachine (the library as a register machine over TLC integers) supplies behaviours to execute on the code: random walks from TLC simulation and every single step from every small register file (exhaustive), compared register by register after each step."),
     "C04": _t("Histories of in-place operations on long-lived registers with pairwise Eq/Ord/Hash observations and decimal twins are validated by "
               "TLC (canonical form of every written register judged independently of its value); NumMachine behaviours (TLC simulation) are "
-              "replayed on the code with a canonical-form test after every step. A cross-family driver applies every structured operand shape to every binary operation."),
+              "replayed on the code with a canonical-form test after every step. A cross-family driver applies every structured operand shape to every binary operation. The representation discipline itself (raw digit-loop result plus the fix-up each site applies: normalize, conditional carry push, truncate, from_biguint sign repair) is a TLA+ state machine (Canon) model-checked over all register pairs of <= 5 binary digits with four calibration mutants: canonical form, structural equality = value equality, length-first ordering = integer ordering."),
     "C05": _t("Recorded modpow/modinv calls (odd and even moduli, top digit 1 / 2^63 / all ones, bases shorter/equal/longer/multiples of the modulus, "
               "zero windows, multi-digit exponents, all signs, +-1, zero modulus, negative exponent) are validated by TLC: every modular reduction "
               "is re-checked from a quotient witness; Monty/plain_modpow transcription model-checked on 35 k triples with three calibration mutants; the modinv loop (unsigned extended Euclid, lifted first iteration, sign reflection of the BigInt wrapper) is a TLA+ state machine checked for every a <= 70, m <= 60 and sign pair: no unsigned underflow, coefficients reduced, Bezout relation, answer, termination, three calibration mutants. NumMachine (the library as a register machine over TLC integers) supplies behaviours to execute on the code: random walks from TLC simulation and every single step from every small register file (exhaustive), compared register by register after each step."),
@@ -293,7 +293,7 @@ MANIFEST_TEXT = {
     "C18": _t("Sampler calls on scripted RNG streams (zeros, ones, counter, reject-k-then-accept ...) validated by TLC: the result is the stream "
               "function of the words actually consumed (first candidate below the bound, top word shifted down), empty ranges panic."),
     "C19": _t("Recorded sign/negation/identity helper calls incl. inconsistent (Sign, magnitude) requests and trait-path conversions validated by "
-              "TLC; NumMachine behaviours replayed on the code."),
+              "TLC; NumMachine behaviours replayed on the code; the from_biguint / NoSign repair rules are part of the Canon state machine model-checked with calibration mutants."),
     "C20": _t("The multiply-accumulate work counter for dense operands (n = 256..16384 balanced; n x 2n-1, 2n, 64n unbalanced) is validated by "
               "TLC against the inequalities of the statement; the CostModel recurrence is checked by TLC and compared with the measurement."),
 }
